@@ -19,6 +19,7 @@ _ENV_KEYS = ('FLIPJUMP_NO_NATIVE', 'FLIPJUMP_NO_FLAT', 'FLIPJUMP_FLAT_MAX_WORDS'
              'FLIPJUMP_TEST_FLAT_ALLOC_FAIL')
 
 _tmpdir: Optional[str] = None
+_ASYNC_SIGNALS = {signal.SIGALRM, signal.SIGINT}
 
 
 def tmpdir() -> Path:
@@ -87,7 +88,11 @@ def make_recording_device():
         keeps the DeviceMemory handed over by the interpreter, and can run a scripted action
         (memory access / raise) at a chosen IO call index."""
 
-        def __init__(self, input_bytes: bytes = b'', on_call: Optional[Callable[['RecordingDevice', str, int], None]] = None):
+        def __init__(self, input_bytes: bytes = b'', on_call: Optional[Callable[['RecordingDevice', str, int], None]] = None,
+                     atomic: bool = False):
+            # atomic=True: asynchronous signals are held off while the device updates its own record, so the
+            # monitor's state cannot be torn by the interrupt it is observing (the monitor must not be the race)
+            self._atomic = atomic
             self._in = input_bytes
             self._pos = 0
             self.log: List[Tuple[str, int]] = []
@@ -101,13 +106,30 @@ def make_recording_device():
             self.attach_count += 1
 
         def read_bit(self) -> bool:
+            if self._atomic:
+                signal.pthread_sigmask(signal.SIG_BLOCK, _ASYNC_SIGNALS)
+                try:
+                    return self._read_bit()
+                finally:
+                    signal.pthread_sigmask(signal.SIG_UNBLOCK, _ASYNC_SIGNALS)
+            return self._read_bit()
+
+        def write_bit(self, bit: bool) -> None:
+            if self._atomic:
+                signal.pthread_sigmask(signal.SIG_BLOCK, _ASYNC_SIGNALS)
+                try:
+                    return self._write_bit(bit)
+                finally:
+                    signal.pthread_sigmask(signal.SIG_UNBLOCK, _ASYNC_SIGNALS)
+            return self._write_bit(bit)
+
+        def _read_bit(self) -> bool:
             index = self.calls
             self.calls += 1
             if self.on_call is not None:
                 forced = self.on_call(self, 'r', index)
                 if forced is not None:
-                    self.log.append(('r', int(bool(forced))))
-                    return forced
+                    return forced  # a scripted (possibly non-bool) reply: not logged, the script knows it
             if self._pos >= 8 * len(self._in):
                 self.log.append(('r', -1))
                 raise IOReadOnEOF('recording device: end of input')
@@ -116,7 +138,7 @@ def make_recording_device():
             self.log.append(('r', bit))
             return bool(bit)
 
-        def write_bit(self, bit: bool) -> None:
+        def _write_bit(self, bit: bool) -> None:
             index = self.calls
             self.calls += 1
             if self.on_call is not None:
